@@ -12,6 +12,13 @@ import HeimdallModel.Model.ReqView
 -/
 namespace Heimdall.Fwd
 
+/-! ## tables -/
+
+/-- two name tables have the same elements -/
+def sameNames (a b : List String) : Prop := (∀ k ∈ a, k ∈ b) ∧ (∀ k ∈ b, k ∈ a)
+
+instance (a b : List String) : Decidable (sameNames a b) := by unfold sameNames; exact inferInstance
+
 /-! ## listed -/
 
 /-- first address of the range `pre/plen` -/
